@@ -1,3 +1,5 @@
+#![cfg_attr(feature = "nightly", feature(generic_const_exprs))]
+#![cfg_attr(feature = "nightly", allow(incomplete_features))]
 mod envelope;
 mod exact;
 mod explore;
@@ -26,6 +28,7 @@ fn main() {
     };
     let mut replay = None;
     let mut only: Option<String> = None;
+    let mut secondary: Option<String> = None;
     let mut i = 1;
     while i < args.len() {
         match args[i].as_str() {
@@ -43,6 +46,10 @@ fn main() {
             }
             "--replay" => {
                 replay = args.get(i + 1).cloned();
+                i += 1;
+            }
+            "--secondary" => {
+                secondary = args.get(i + 1).cloned();
                 i += 1;
             }
             "--only" => {
@@ -67,6 +74,7 @@ fn main() {
         }
     };
     let mut rep = PropReport::new(&prop, tier, seed);
+    rep.secondary = secondary;
     rep.rule = plan.rule.clone();
     rep.assumptions = plan.assumptions.clone();
     let mut extra = serde_json::Map::new();
